@@ -16,7 +16,7 @@ CONFIG = {
     "level_note": ("Aborted creates are not judged here (they belong to C04/C09/C17). Chain and manifests are read with "
                    "expat, c4 recomputed with hashlib; sampling, not exhaustive."),
     "technique": "deterministic simulation: seeded command/edit/clock sequences with an append-only + chain-consistency monitor",
-    "quick": {"runs": 1200, "budget_s": 90},
+    "quick": {"runs": 1600, "budget_s": 120},
     "thorough": {"runs": 6000, "budget_s": 540},
     "rule": ("one run = random world + 3..12 operations (create variants on root and nested roots, tree edits, clock "
              "advances incl. 0 and backwards steps); one evaluation = one executed command. Distinct = (command kind, exit "
